@@ -5,7 +5,8 @@ import GmqttVerif.Model.Codec.Utf8
   The loops walk the byte slice rune by rune (`utf8.DecodeRune`) and look at a byte only when the rune
   has size 1. `p[size:]` is `tl.drop (size - 1)` for `p = p0 :: tl` (size ≥ 1 for non-empty input).
 
-  FIXED CODE is modelled; the `Orig` namespace keeps the functions exactly as found:
+  The model mirrors the tree after the fixes 11b2dae (F21), 4c8d3ed (F22), 382d423 (F26); the `Orig` namespace keeps
+  the functions exactly as they were found:
     F21  `ValidTopicFilter`: the "`+` must be followed by `/`" test sits inside `isSetPrevByte`, so it is skipped
          for the first byte: "+a" is accepted.
     F22  `ru == utf8.RuneError` without `size == 1` rejects U+FFFD.
